@@ -31,6 +31,18 @@ type c09S1Case struct {
 func c09S1Worker(env *fw.Env) {
 	k := int64(0)
 	for rep := 0; rep < env.Pick(2, 12); rep++ {
+		// the HSMS-SS counterpart: the receive path is wedged in a data handler, a W-bit sender waits for a reply
+		// that cannot arrive, and the generation ends by Close or by a linktest failure
+		for _, end := range []string{"close", "linktest-failure"} {
+			for _, role := range []string{"active", "passive"} {
+				i := k
+				k++
+				if !env.Mine(i) || !env.Want(i) {
+					continue
+				}
+				c09WedgedHSMS(env, c09S1Case{Index: i, Handler: "blocks (hsmsss)", End: end, Role: role})
+			}
+		}
 		for _, h := range []string{"blocks", "sends-inline"} {
 			for _, end := range []string{"close"} {
 				for _, role := range []string{"active", "passive"} {
@@ -199,5 +211,111 @@ func c09S1One(env *fw.Env, cs c09S1Case) {
 	case <-closed:
 	case <-time.After(10 * time.Second):
 		env.Violate("secs1-close-hangs", "Close did not return within 10 s (close timeout 500 ms)", cs)
+	}
+}
+
+// c09WedgedHSMS: HSMS-SS, the receive path is wedged inside a data handler (handlers run inline on the receive
+// goroutine), a W-bit sender whose primary the peer has read waits for a reply that cannot be delivered, and the
+// generation ends. The waiter belongs to its generation: it must come back with the connection-closed error when the
+// generation's teardown starts — not with the handler, not with the bounded join of the wedged receive loop, not at T3.
+func c09WedgedHSMS(env *fw.Env, cs c09S1Case) {
+	env.Begin(cs.Index, cs)
+	env.Sample(cs)
+	env.Eval(fw.HashStr("c09wedged", cs.End, cs.Role), true)
+	env.Event("wedged_handler_waiter_cases", 1)
+	o := rigOpts{Active: cs.Role == "active", T3: 60 * time.Second, T5: 30 * time.Millisecond, BackoffInit: 5 * time.Millisecond, CloseTimeout: 500 * time.Millisecond}
+	if cs.End == "linktest-failure" {
+		off := false
+		o.Linktest, o.T6, o.LinktestFails, o.Suppress = 60*time.Millisecond, 150*time.Millisecond, 2, &off
+	}
+	rg, err := newRig(o)
+	if err != nil {
+		env.Discard()
+		return
+	}
+	release := make(chan struct{})
+	inHandler := make(chan struct{}, 1)
+	rg.Conn.AddDataMessageHandler(func(m *hsms.DataMessage, _ hsms.SECS2Endpoint) {
+		if m.Stream() != 5 {
+			return
+		}
+		select {
+		case inHandler <- struct{}{}:
+		default:
+		}
+		<-release
+	})
+	onFrame := func(c *peer.Conn, f peer.Frame) bool {
+		if f.PType == 0 && f.SType == peer.STLinktestReq {
+			_ = c.Send(peer.LinktestRsp(f.Sys)) // always answered: once the receive path is wedged the answers are not read
+		}
+
+		return false
+	}
+	pc, err := rg.Establish(onFrame)
+	if err != nil {
+		env.Discard()
+		_ = rg.Shutdown()
+		return
+	}
+	defer pc.Close()
+	shut := false
+	defer func() {
+		close(release)
+		if !shut {
+			_ = rg.Shutdown()
+		}
+	}()
+	type result struct {
+		err error
+		at  time.Time
+	}
+	res := make(chan result, 1)
+	go func() {
+		_, err := rg.Conn.SendDataMessage(context.Background(), 1, 1, true, secs2.A("never answered"))
+		res <- result{err, time.Now()}
+	}()
+	primaryRead := func() bool {
+		for _, ev := range pc.Log() {
+			if ev.Frame.IsData() {
+				return true
+			}
+		}
+
+		return false
+	}
+	if !waitFor(10*time.Second, primaryRead) {
+		env.Discard()
+		return
+	}
+	_ = pc.Send(peer.Data(5, 1, false, 0x1234, 0x09090001, nil))
+	select {
+	case <-inHandler:
+	case <-time.After(10 * time.Second):
+		env.Discard()
+		return
+	}
+	t0 := time.Now()
+	closed := make(chan error, 1)
+	if cs.End == "close" {
+		shut = true
+		go func() { closed <- rg.Shutdown() }()
+	}
+	select {
+	case r := <-res:
+		if !errors.Is(r.err, hsms.ErrConnClosed) {
+			env.Violate("wedged-handler-waiter-wrong-error", fmt.Sprintf("generation ended by %s while the receive path was wedged in a handler: the waiting W-bit send returned %v after %v, want the connection-closed error", cs.End, r.err, r.at.Sub(t0)), cs)
+		} else {
+			env.Event("wedged_handler_waiters_released", 1)
+		}
+	case <-time.After(15 * time.Second):
+		env.Violate("wedged-handler-waiter-outlives-its-generation", fmt.Sprintf("15 s after the generation ended by %s (close timeout 500 ms, T3 60 s; linktest T6 150 ms x 2) the W-bit send whose primary the peer had read has not returned: it is tied to the wedged receive path, not to its generation", cs.End), cs)
+	}
+	if cs.End == "close" {
+		select {
+		case <-closed:
+		case <-time.After(10 * time.Second):
+			env.Violate("close-hangs-wedged-handler", "Close did not return within 10 s although the close timeout is 500 ms (a handler is wedged: the bounded join must give up)", cs)
+		}
 	}
 }
